@@ -50,6 +50,14 @@ Verdict(e) ==
     ELSE IF ~e.caches_ok THEN "cache"
     ELSE "none"
 
+(* A composite answer for the LATEST height (event "pair"): the untrusted provider names one height, then another; the  *)
+(* transactions and the results returned together must belong to ONE height (`paired`, computed by the harness from the   *)
+(* canonical data: some height whose transactions AND whose results are the returned ones).                               *)
+PairVerdict(e) ==
+    IF "panic" \in DOMAIN e THEN "panic"
+    ELSE IF e.accepted /\ ~e.paired THEN "pair_unbound"
+    ELSE "none"
+
 TraceInit == l = 1 /\ bad = "none"
 
 TrBegin ==
@@ -61,7 +69,12 @@ TrCase ==
     /\ l' = l + 1
     /\ bad' = IF bad # "none" THEN bad ELSE Verdict(Trace[l])
 
-TraceNext == TrBegin \/ TrCase
+TrPair ==
+    /\ l <= Len(Trace) /\ Trace[l].ev = "pair"
+    /\ l' = l + 1
+    /\ bad' = IF bad # "none" THEN bad ELSE PairVerdict(Trace[l])
+
+TraceNext == TrBegin \/ TrCase \/ TrPair
 
 TraceSpec == TraceInit /\ [][TraceNext]_tvars
 
